@@ -22,7 +22,7 @@ def char_codes(s):
     return out
 
 
-def validate(items, tag="cursor", max_rounds=6, parallel=6):
+def validate(items, tag="cursor", max_rounds=6, parallel=14):
     """Validate in `parallel` independent TLC runs (the trace spec is sequential: -workers 1 each)."""
     live = [i for i, (s, ev) in enumerate(items) if ev is not None]
     nev = sum(len(items[i][1]) for i in live)
